@@ -133,6 +133,11 @@ module Pos =
   | Coq_xO n' -> iter f (iter f x n') n'
   | Coq_xH -> f x
 
+  (** val pow : positive -> positive -> positive **)
+
+  let pow x =
+    iter (mul x) Coq_xH
+
   (** val size : positive -> positive **)
 
   let rec size = function
@@ -188,6 +193,24 @@ module Pos =
   let coq_Ndouble = function
   | N0 -> N0
   | Npos p -> Npos (Coq_xO p)
+
+  (** val coq_lor : positive -> positive -> positive **)
+
+  let rec coq_lor p q =
+    match p with
+    | Coq_xI p0 ->
+      (match q with
+       | Coq_xI q0 -> Coq_xI (coq_lor p0 q0)
+       | Coq_xO q0 -> Coq_xI (coq_lor p0 q0)
+       | Coq_xH -> p)
+    | Coq_xO p0 ->
+      (match q with
+       | Coq_xI q0 -> Coq_xI (coq_lor p0 q0)
+       | Coq_xO q0 -> Coq_xO (coq_lor p0 q0)
+       | Coq_xH -> Coq_xI p0)
+    | Coq_xH -> (match q with
+                 | Coq_xO q0 -> Coq_xI q0
+                 | _ -> q)
 
   (** val coq_land : positive -> positive -> coq_N **)
 
